@@ -39,12 +39,15 @@ def describe(inst, res, f):
 def run(tier, seed):
     quick = tier == "quick"
     allrm = {"unset_mode": "fi"}
-    plan = [("guix2", None, 30), ("getx3", None, 40), ("tut13x2", allrm, 25)] if quick else \
-           [("guix2", None, 300), ("getx3", None, 300), ("guix3e", None, 250), ("guic", None, 200), ("getx2", None, 300), ("tut13x2", allrm, 300),
+    plan = [("guix2", None, 24), ("getx3", None, 32), ("tut13x2", allrm, 20), ("guigetx2", None, 32)] if quick else \
+           [("guix2", None, 300), ("getx3", None, 300), ("guigetx2", None, 300), ("guigetx3", None, 300), ("guix3e", None, 250), ("guic", None, 200), ("getx2", None, 300), ("tut13x2", allrm, 300),
             ("tut13x3", allrm, 250), ("guix2", {"pool_filter": "copy"}, 150)]
+    # generated suites: random setup DAGs with removable states at any depth (vf/parse/gensuite.py)
+    plan += [("gen:%d:2" % (seed + 101), None, 16)] if quick else \
+            [("gen:%d:%d" % (seed + 101 + i, 2 + i % 2), None if i % 2 else allrm, 150) for i in range(8)]
     return D.generic_run(PID, tier, seed, plan, make_jobs, signature, describe, explore_plan=D.explore_plan(tier, ['NoC05'], removable=True),
                          rule="randomized schedules on graphs with removable states (tutorial_gui/tutorial_get; every state removable via "
-                              "unset_mode=fi), pool_filter reuse/block/copy; TLC validates every unset and sync request")
+                              "unset_mode=fi; generated suites with removable states at random depths), pool_filter reuse/block/copy; TLC validates every unset and sync request")
 
 
 def replay(path):
